@@ -102,6 +102,11 @@ ExpectWith(e, a) ==
       [] e.op = "resize" -> Resize(a, e.args.dst)
       [] e.op = "expand" -> Expand(a, e.args.axis, e.args.spacing, e.args.fill)
       \* C07
+      \* C14: a binary ufunc over two views (the nested view may be either operand): f(va(a), vb(b))
+      [] e.op = "tree" ->
+            LET vw(x, w) == CASE w = "id" -> x [] w = "transpose" -> Transpose(x, <<>>) [] w = "flatten" -> Flatten(x)
+                r == Elementwise(<<vw(a, e.args.va), vw(Operand(e, 2), e.args.vb)>>, LAMBDA v : Scalar2(e.args.f, v[1], v[2]))
+            IN [ok |-> r.ok, shape |-> r.shape, elems |-> r.elems]
       [] e.op \in BinOps -> WithDtype(Elementwise(<<a, Operand(e, 2)>>, LAMBDA v : Scalar2(e.op, v[1], v[2])), e.op)
       [] e.op \in UnOps -> WithDtype(Elementwise(<<a>>, LAMBDA v : Scalar1(e.op, v[1])), e.op)
       [] e.op \in OuterOps -> WithDtype(Outer(OuterName(e.op), a, Operand(e, 2)), OuterName(e.op))
